@@ -67,7 +67,7 @@ def confirm(name, with_ctest):
             if f.endswith((".cc", ".hh", ".h", ".c")):
                 shutil.copy(os.path.join(sd, f), os.path.join(wt, "_seed", f))
         flags = " ".join(demo_flags(sd))
-        build = "g++ %s -I. _seed/demo.cc -o _seed/demo" % flags
+        build = "g++ %s -I. -I_seed _seed/demo.cc -o _seed/demo" % flags
         res["demo_build"] = build
         rc, out = sh(build, cwd=wt, timeout=600)
         if rc != 0:
